@@ -8,7 +8,7 @@ RULE = ("operations {runW (new WNTRSimulator), runWs (WNTRSimulator object of th
         "copy), reload (write_json/read_json, continue on the reloaded model)}; ALL histories of length <= 3 (quick) / <= 4 "
         "(thorough) over 19 models carrying: status time controls on a pipe, a pump and a valve; a valve setting control; a pump "
         "speed control; tank-level controls; a leak window; a rule with ELSE; PDD; an initially CLOSED pump and an initially "
-        "CLOSED / OPEN valve built through the API (no reset after building); a volume-curve tank; a head pump; a head pump pushed beyond the end of its curve; report steps the simulator adjusts for itself (shorter than / not a multiple of the hydraulic step); six of them additionally with the operation edit (ONE definition edit through the public API followed by reset_initial_values(): pipe diameter, pump curve points, pattern multipliers, volume curve points, junction required pressure, leak replaced) after which the model must behave like one built with the edited value from scratch.  A state is a history prefix "
+        "CLOSED / OPEN valve built through the API (no reset after building); a volume-curve tank; a head pump; a head pump pushed beyond the end of its curve; report steps the simulator adjusts for itself (shorter than / not a multiple of the hydraulic step); nine of them additionally with the operation edit (ONE definition edit through the public API followed by reset_initial_values(): pipe diameter, pump curve points, pattern multipliers, volume curve points, junction required pressure, leak replaced, valve initial setting, valve initial status, tank initial level) after which the model must behave like one built with the edited value from scratch.  A state is a history prefix "
         "(runtime state of live objects cannot be canonicalised, so prefixes are not merged); every transition replays the history "
         "on a fresh real model.  invariant in every state: to_dict(wn) (JSON-normalised) equals the initial dictionary.  oracles: "
         "runW on a fresh state (initial, after reset, reloaded, or a copy of one) equals the first fresh runW of that model (1e-9); "
@@ -107,6 +107,12 @@ def _edit_spec(s, name):
         node(s, "J2")["preq"] = 12.0
     elif name == "leak":
         node(s, "J2")["leak"] = {"area": 9e-4, "cd": 0.6, "start": 2 * H, "end": 4 * H}
+    elif name == "prv_setting":
+        link(s, "p2")["setting"] = 22.0
+    elif name == "valve_status_setting":
+        link(s, "p4")["status"] = "CLOSED"
+    elif name == "level_controls":
+        node(s, "T")["init"] = 4.5
     else:
         raise KeyError(name)
     return s
@@ -128,11 +134,17 @@ def _edit_api(wn, name):
         j = wn.get_node("J2")
         j.remove_leak(wn)
         j.add_leak(wn, 9e-4, 0.6, 2 * H, 4 * H)
+    elif name == "prv_setting":
+        wn.get_link("p2").initial_setting = 22.0            # initial values: take effect with the reset that follows
+    elif name == "valve_status_setting":
+        wn.get_link("p4").initial_status = "CLOSED"
+    elif name == "level_controls":
+        wn.get_node("T").init_level = 4.5
     else:
         raise KeyError(name)
 
 
-EDITABLE = ("pipe_status", "hpump_curve", "pattern", "vcurve", "pdd", "leak")
+EDITABLE = ("pipe_status", "hpump_curve", "pattern", "vcurve", "pdd", "leak", "prv_setting", "valve_status_setting", "level_controls")
 
 
 def cases(tier):
